@@ -5,6 +5,14 @@ HERE = os.path.dirname(os.path.dirname(os.path.abspath(__file__)))
 
 # id -> (technique, level text, level note, design ref)
 CHECKS = {
+ "C03": ("PBT + exhaustive small scope against a transcription of TeX's line scanner (reference model) with trace-position validity, calibrated on the lexer's 76 table tests",
+         "Random sources over an alphabet hitting every scanner branch (escape, braces, ^^ forms incl. hex, nested, at line ends and in names, blanks, CR, NUL, DEL, non-ASCII) x random category-code tables (60% plain, 40% uniform per occurring character) x \\endlinechar in {none, CR, letter, ^, any ASCII}, also with the configuration switched mid-stream; all strings of length<=5 (<=6 thorough) over 8 symbols under 8 tables. Tokens (kind, name, char, catcode, InvalidCharacter) must equal the model one for one in both report_end_of_line modes; every token's trace must give the model's line number, full line text and a column inside the allowed span; no panic, no key exhaustion.",
+         "Trusted: models/tex_lexer.rs (TeX 343-356 transcription, reproduces the 76 goldens), proptest. Column tolerance for tokens made by ^^ reduction or by the appended end-line char is the property's (DESIGN.md C03).",
+         "DESIGN.md §4 C03"),
+ "C17": ("exhaustive enumeration (all 2^32-1 fix_words in the thorough tier) + PBT against transcriptions of TFtoPL/PLtoTF/TeX arithmetic; validity predicates with brute-force optimal tolerance for compress; naive cycle finder for next-larger chains",
+         "fix_word text: Display equals TFtoPL 40-43 and the PL reader returns the identical i32 (quick: |v|<2^22, multiples of 4099, powers of two +-2, 16M mixed values; thorough: every bit pattern except -2048.0). to_scaled: 5*10^7 (value, design size) pairs incl. an edge grid vs TeX 571 byte arithmetic and an i128 closed form. compress: random multisets (0-300 values, limit 1-255) and every subset of a 12-point universe x every limit: at most limit classes, intervals of the sorted values, midpoint representatives (rounded down), smallest feasible tolerance by brute force. next-larger: random functional graphs on <=256 characters and all graphs on 5 characters: finite chains following the links, one cut per cycle at its largest character, one warning per cycle.",
+         "Trusted: models/tfm_arith.rs (calibrated on the crate's goldens and 1994 R values of 5 Computer Modern property lists), proptest. 'half the tolerance' is read on the fix_word grid (ceil(delta/2)), as the crate's golden lower_upper_close_edge_case_3 requires.",
+         "DESIGN.md §4 C17"),
  "C09": ("totality fuzzing by generated token soups and snippet programs under catch_unwind with a semantic error-location oracle; exhaustive vocabulary pairs; saved crash inputs as a replay tier",
          "Random soups (0-40 elements) over every installed primitive, user macros, braces, #, numbers at and beyond every limit (register indices, character codes incl. surrogates, 2^31 boundaries), units, keywords, ^^ forms, non-ASCII text, file names incl. areas, ~100 snippet programs (the stdlib's own 50 error cases + a valid use of every primitive family), truncated at any byte, under all five interaction modes; every pair of vocabulary items exhaustively. Ok, or an error whose Display is non-empty and whose traces have line>=1 and column<=line length; any panic (todo!, unwrap, overflow, slice, shutdown protocol) is a violation.",
          "Trusted: catch_unwind with the harness panic hook, the harness state type (same components as StdLibState, in-memory file system, scripted terminal, expansion budget 3000), proptest. \\sleep/\\dumpFormat/\\dumpValidate not installed; \\newIntArray only with small sizes; the \\tracingmacros printing hook is not called.",
